@@ -7,7 +7,7 @@ the context, (d) a fresh Tdf(path); plus nBytes vs. the file system and get_bloc
 bytes on disk."""
 import os
 
-from .. import core, env, kdriver, specs
+from .. import core, editwalk, env, kdriver, specs
 from .. import tdfref as R
 from . import kcommon
 
@@ -73,6 +73,20 @@ def observe(sess, hist, op, exc, valid, reason, pre, acc):
             if got != want:
                 raise core.Violation("read!=disk", kcommon.sig(PROP, "read!=disk", op, cfg), None,
                                      f"{where}: get_block({i}) differs from decoding the bytes stored on disk")
+            # the object handed out is the caller's: editing it must not change what the next read returns
+            try:
+                first = tdf.get_block(i)
+                if editwalk.scribble(first):
+                    again = specs.lib_encode(tdf.get_block(i))
+                    if again != want:
+                        raise core.Violation("read-returns-unwritten-edit", kcommon.sig(PROP, "read-returns-unwritten-edit", op, cfg), None,
+                                             f"{where}: a block obtained from get_block({i}) was edited in place (never written); the "
+                                             f"next get_block({i}) returns the edit instead of what is stored on disk")
+            except core.Violation:
+                raise
+            except Exception as x:  # noqa: BLE001
+                raise core.Violation("read-raises", kcommon.sig(PROP, "read-raises", op, cfg, type(x).__name__), None,
+                                     f"{where}: second read of slot {i}: {type(x).__name__}: {x}")
     # after close, and through a fresh object
     sess.leave()
     after = sess.disk()
